@@ -44,7 +44,7 @@ Min(a, b) == IF a < b THEN a ELSE b
 
 Strobes == {"pd", "npd", "lfps", "ts1", "its1", "ts2", "burst", "idle", "hot", "loop", "nscr", "rec"}
 
-NoInput == [rst |-> FALSE, phy |-> TRUE, dscr |-> FALSE, sent |-> 0,
+NoInput == [rst |-> FALSE, drst |-> FALSE, phy |-> TRUE, dscr |-> FALSE, sent |-> 0,
             pd |-> FALSE, npd |-> FALSE, lfps |-> FALSE, ts1 |-> FALSE, its1 |-> FALSE, ts2 |-> FALSE,
             burst |-> FALSE, idle |-> FALSE, hot |-> FALSE, loop |-> FALSE, nscr |-> FALSE, rec |-> FALSE]
 
@@ -54,7 +54,11 @@ AnyStrobe(i) == \E s \in Strobes : i[s]
 Quieten(i) == [NoInput EXCEPT !.phy = i.phy, !.dscr = i.dscr, !.sent = i.sent]
 
 \* "Something happened at the inputs in this cycle" (p = inputs of the previous cycle).
-Activity(p, i) == AnyStrobe(i) \/ i.rst \/ p.rst \/ i.phy # p.phy \/ i.dscr # p.dscr \/ i.sent # p.sent
+\* `drst` is the reset of the controller's clock domain (ResetSignal("ss"), the power-on reset of the gateware):
+\* every register returns to its initial value.  For the monitors it is a reset like in_usb_reset.
+Rst(i) == i.rst \/ i.drst
+
+Activity(p, i) == AnyStrobe(i) \/ Rst(i) \/ p.rst \/ i.phy # p.phy \/ i.dscr # p.dscr \/ i.sent # p.sent
 
 LegalInput(i) == i.sent \in 0..MaxSent
 
@@ -154,6 +158,7 @@ Norm(s) ==
 
 \* One clock cycle.
 Step1(s, i) ==
+  IF i.drst THEN RefInit(s.lo) ELSE
   LET t   == Target(s, i)
       go  == t # STAY
       \* detector latches (set in any state)
@@ -226,7 +231,7 @@ PhaseTimeout(ph) == CASE ph \in {"TS1", "TS2", "QUIET"} -> T12
 LinkDown(ph) == ph \in {"OFF", "QUIET", "DETECT", "NONE"}
 
 \* What the monitors remember of the previous cycle's inputs.
-PrevOf(i) == [rst |-> i.rst, phy |-> i.phy, dscr |-> i.dscr, sent |-> i.sent, ts1 |-> i.ts1]
+PrevOf(i) == [rst |-> Rst(i), phy |-> i.phy, dscr |-> i.dscr, sent |-> i.sent, ts1 |-> i.ts1]
 
 GInit(lo) == [lo |-> lo, ph |-> "INIT", age |-> 0, quiet |-> 0, pi |-> PrevOf(NoInput), wasReady |-> FALSE,
           \* trainedSinceReset: partner detected -> LFPS handshake -> TS1/TS2 exchange -> idle handshake
@@ -256,12 +261,12 @@ G1(g, i, o, ageCap) ==
       bT  == ~down /\ g.tsx
       bI  == ~down /\ g.idlex
       \* --- handshakeSinceEntry ---
-      clearH == trainStart \/ startHot \/ down \/ i.rst
-      h2  == ph \in {"TS1", "TS2"} /\ ((IF clearH THEN FALSE ELSE g.hTs2) \/ (i.ts2 /\ ~i.rst))
+      clearH == trainStart \/ startHot \/ down \/ Rst(i)
+      h2  == ph \in {"TS1", "TS2"} /\ ((IF clearH THEN FALSE ELSE g.hTs2) \/ (i.ts2 /\ ~Rst(i)))
       hc0 == IF clearH THEN FALSE ELSE g.hCfg
-      hc  == hc0 \/ (o.sts2 /\ i.burst /\ h2 /\ ~i.rst)
-      hi  == (IF clearH THEN FALSE ELSE g.hIdle) \/ (hc0 /\ o.pidle /\ i.idle /\ ~i.rst)
-      ep  == IF down \/ i.rst THEN "none"
+      hc  == hc0 \/ (o.sts2 /\ i.burst /\ h2 /\ ~Rst(i))
+      hi  == (IF clearH THEN FALSE ELSE g.hIdle) \/ (hc0 /\ o.pidle /\ i.idle /\ ~Rst(i))
+      ep  == IF down \/ Rst(i) THEN "none"
              ELSE IF startHot THEN "hot"
              ELSE IF startPoll THEN "poll"
              ELSE IF startTs1 /\ g.ph # "TSEQ" THEN "rec"
@@ -276,10 +281,10 @@ G1(g, i, o, ageCap) ==
       quiet |-> IF Activity(g.pi, i) THEN 0 ELSE Min(g.quiet + 1, QuietQ),
       pi |-> PrevOf(i),
       wasReady |-> o.lr,
-      partner |-> ~i.rst /\ (bP \/ (o.rxd /\ i.pd)),
-      lfpsx   |-> ~i.rst /\ lx,
-      tsx     |-> ~i.rst /\ tx,
-      idlex   |-> ~i.rst /\ (bI \/ (bT /\ o.pidle /\ i.idle)),
+      partner |-> ~Rst(i) /\ (bP \/ (o.rxd /\ i.pd)),
+      lfpsx   |-> ~Rst(i) /\ lx,
+      tsx     |-> ~Rst(i) /\ tx,
+      idlex   |-> ~Rst(i) /\ (bI \/ (bT /\ o.pidle /\ i.idle)),
       ep |-> ep, hTs2 |-> h2, hCfg |-> hc, hIdle |-> hi,
       lfpsHave  |-> IF o.slfps THEN (IF startPoll THEN i.lfps ELSE g.lfpsHave \/ i.lfps) ELSE FALSE,
       lfpsFirst |-> IF first THEN i.sent ELSE IF o.slfps /\ ~startPoll THEN g.lfpsFirst ELSE 0,
